@@ -367,8 +367,26 @@ class Impl(object):
         # the label (labeled-response) is written into the dequeued object itself: describe the
         # sources as they were queued
         pre = dict((id(x), self.ser(x)) for q in bq for x in q)
+        old_limit = None
+        if getattr(self, 'rec_extra', 0):
+            # a shallow stack: a takeMsg that uses one level of recursion per dropped message shows
+            # with tens, not hundreds, of messages
+            depth = 0; fr = sys._getframe()
+            while fr is not None:
+                depth += 1; fr = fr.f_back
+            old_limit = sys.getrecursionlimit()
+            sys.setrecursionlimit(depth + self.rec_extra)
+            take_fn = self.take_fn
+            def limited():
+                try:
+                    return take_fn()
+                finally:
+                    sys.setrecursionlimit(old_limit)
+            self_take = limited
+        else:
+            self_take = self.take_fn
         prelabel = dict((id(x), x.server_tags.get('label')) for q in bq for x in q)
-        r = self.take_fn()
+        r = self_take()
         self.last_taken = r
         chain = [list(e) for e in self.chain]
         ret = 'N' if r is None else 'M' + self.ser(r)
@@ -649,6 +667,23 @@ def gen_content(r):
         return ['', cmd, args, r.choice([{'+a': 'x'}, {'+a': 'y'}, {'+b': None}, {'+a': 'x', '+b': None}, {'label': 'L1'}])]
     return ['', cmd, args]
 
+def gen_dropchain(r):
+    """runs of every length in a range of messages an outFilter drops, each followed by one it lets through,
+    taken with little stack left"""
+    ops = [['cfg', 0, 0, False, False, 120], ['filters', [['drop', 'WHO', 'X']]], ['new', 1000], ['reclimit', r.choice([70, 90, 120])]]
+    ops += [['take']] * 5
+    serial = 0
+    lens = list(range(2, 46)); r.shuffle(lens)
+    for n in lens[:r.randint(25, 44)]:
+        put = 'send'        # (the regular queue: the virtual clock stands still inside takeMsg, the throttle ends the run)
+        for _ in range(n):
+            ops.append([put, serial, ['', 'WHO', ['#q%d' % serial]]]); serial += 1
+        ops.append([put, serial, ['', 'PRIVMSG', ['#loud', 'good %d' % n]]]); serial += 1
+        ops.append(['tick', 1])
+        ops += [['take'], ['take']]
+    ops.append(['drained'])
+    return ops
+
 def gen_rules(r):
     k = r.randint(0, 9)
     if k < 4:
@@ -769,6 +804,9 @@ def run_case(ops, kind):
             if op[0] == 'drained':
                 drained_check(im, ops)
                 continue
+            if op[0] == 'reclimit':
+                im.rec_extra = op[1]       # takeMsg runs with this many frames of stack left
+                continue
             if op[0] == 'drun':
                 lines_ = im.drun()
                 obs.extend(lines_)
@@ -790,7 +828,7 @@ def run_case(ops, kind):
     ok = True; msg = ''
     if nonfinding:
         ok = False
-        plain_ops = [op for op in ops if op[0] != 'drained']
+        plain_ops = [op for op in ops if op[0] not in ('drained', 'reclimit')]
         msg = 'op #%d %r: %s' % (nonfinding[0][0], plain_ops[nonfinding[0][0]] if nonfinding[0][0] < len(plain_ops) else None, nonfinding[0][1])
     elif im.fails:
         ok = False; finding = im.fails[0][2]
@@ -800,7 +838,7 @@ def run_case(ops, kind):
     return c, model_lines(real_ops, connect), visible(real_ops)
 
 
-def explore(seed_stream, n, n_reuse, maxlen, corpus=(), budget=80.0, n_driver=0):
+def explore(seed_stream, n, n_reuse, maxlen, corpus=(), budget=80.0, n_driver=0, n_chain=0):
     r = rng.make(seed_stream)
     cases = []; lines = []; spans = []
     def add(ops, kind):
@@ -811,6 +849,9 @@ def explore(seed_stream, n, n_reuse, maxlen, corpus=(), budget=80.0, n_driver=0)
     for ops in corpus:
         add(ops, 'corpus')
     t0 = time.time()
+    rc = rng.make(seed_stream + '-dropchain')
+    for i in range(n_chain):
+        add(gen_dropchain(rc), 'dropchain')
     rd = rng.make(seed_stream + '-driver')
     for i in range(n_driver):
         ops = gen_ops(rd, maxlen)
@@ -907,7 +948,7 @@ def run(ctx):
     else:
         n, n_reuse, maxlen = 4400, 260, 60
     cases, lines, spans = explore('c19', n, n_reuse, maxlen, load_corpus(), budget=(600.0 if ctx.thorough else 50.0),
-                                  n_driver=(6000 if ctx.thorough else 500))
+                                  n_driver=(6000 if ctx.thorough else 500), n_chain=(25 if ctx.thorough else 2))
     status, wcase = reuse_witness_status()
     if build.driver_ok:
         fill_model(cases, lines, spans)
